@@ -31,11 +31,11 @@ func main() { vlib.Run("C11", run) }
 
 func run(c *vlib.Ctx) {
 	c.Rule("histories of 3-20 mutations {AddRawLink,AddNodeLink,RemoveNodeLink,SetLinks(0-30),SetData(nil/empty/bytes),SetCidBuilder(v0,v1 x {sha2-256,sha2-512,blake2b-256,sha3-256,sha2-256/20,identity},*Prefix,V0Builder,V1Builder,custom,nil,invalid),Copy,UpdateNodeLink,ReloadBlock} over names {\"\",a,b,aa,ab,é,A,z} (duplicates frequent), Tsize in {0,1,2^31,2^63-1,random}; after every mutation a random subset of 11 observers runs in random order (so the encode/CID cache is warm, cold or half-refreshed at the next mutation); distinct = FNV of the op+observer list; non-trivial = >=2 mutations hit a warm CID cache, some observed state had equal-named links, and a twin-order comparison ran")
-	c.Cases("hist", c.N(4000, 40000), func(k *vlib.Case) { history(k, true) })
+	c.Cases("hist", c.N(3000, 40000), func(k *vlib.Case) { history(k, true) })
 	// Same generator without SetCidBuilder(nil): avoids the trigger of the
 	// known stale-CID finding so that every other clause stays fully armed.
-	c.Cases("hist-nonil", c.N(2000, 20000), func(k *vlib.Case) { history(k, false) })
-	c.Cases("wide", c.N(600, 6000), wide)
+	c.Cases("hist-nonil", c.N(1500, 20000), func(k *vlib.Case) { history(k, false) })
+	c.Cases("wide", c.N(400, 6000), wide)
 }
 
 // ---------------------------------------------------------------- model
